@@ -90,21 +90,30 @@ func newConcurrentProcess(par int) *concurrentProcess {
 }
 
 func (proc *concurrentProcess) run(eg *errgroup.Group, exec *cmdExecution, callback func([]byte, error) error) {
+	verifSched("run-enter")
 	proc.wg.Add(1)
+	verifSched("wg-added")
 	eg.Go(func() error {
 		defer proc.wg.Done()
+		verifSched("goroutine-start")
 		if err := proc.sema.Acquire(proc.ctx, 1); err != nil {
 			return fmt.Errorf("could not acquire semaphore to run %q: %w", exec.cmd, err)
 		}
+		verifSched("acquired")
 		stdout, err := exec.run()
+		verifSched("process-exit")
 		proc.sema.Release(1)
+		verifSched("released")
+		defer verifSched("callback-done")
 		return callback(stdout, err)
 	})
 }
 
 // wait waits all goroutines started by this concurrentProcess instance finish.
 func (proc *concurrentProcess) wait() {
+	verifSched("wait-enter")
 	proc.wg.Wait() // Wait for all goroutines completing to shutdown
+	verifSched("wait-return")
 }
 
 // newCommandRunner creates new external command runner for given executable. The executable path
